@@ -40,8 +40,8 @@ type ProcessSet struct {
 
 	messageFlows map[string]*schema.MessageFlow
 
-	cmu     sync.RWMutex
-	catchCh map[string]chan struct{}
+	// instances started by message flows (the run loop's own)
+	instantiated []*Process
 
 	subTracer tracing.ITracer
 
@@ -86,7 +86,6 @@ func NewProcessSet(executeProcesses, waitingProcesses []*schema.Process, definit
 		waitings:      waitingProcesses,
 		definitions:   definitions,
 		messageFlows:  messageFlows,
-		catchCh:       make(map[string]chan struct{}),
 		mch:           make(chan imessage, len(executes)+1),
 		done:          make(chan struct{}, 1),
 	}
@@ -160,6 +159,7 @@ func (ps *ProcessSet) run(ctx context.Context) {
 							continue
 						}
 
+						ps.instantiated = append(ps.instantiated, process)
 						traces := process.Tracer().Subscribe()
 						ps.wg.Add(1)
 						go ps.tracerProcess(ctx, process, traces, &ps.wg)
@@ -171,10 +171,7 @@ func (ps *ProcessSet) run(ctx context.Context) {
 							continue
 						}
 					}
-					cancel, found := ps.triggerCatch(string(sourceRef.TargetRefField))
-					if found {
-						cancel()
-					}
+					ps.wakeCatch(string(sourceRef.TargetRefField))
 				}
 				ps.wg.Done()
 			}
@@ -220,34 +217,6 @@ LOOP:
 					}
 				}
 			}
-		case ActiveListeningTrace:
-			ready := make(chan struct{}, 1)
-			ps.registerCatch(msg.Node, ready)
-			wg.Add(1)
-			go func() {
-				defer wg.Done()
-
-				for {
-					select {
-					case <-ready:
-						for _, eventDefinition := range msg.Node.SignalEventDefinitionField {
-							ref, ok := eventDefinition.SignalRef()
-							if ok {
-								process.ConsumeEvent(event.NewSignalEvent(string(*ref)))
-							}
-						}
-						for _, eventDefinition := range msg.Node.MessageEventDefinitionField {
-							ref, ok := eventDefinition.MessageRef()
-							if ok {
-								process.ConsumeEvent(event.NewMessageEvent(string(*ref), (*string)(eventDefinition.OperationRefField)))
-							}
-						}
-						return
-					case <-ctx.Done():
-						return
-					}
-				}
-			}()
 		case CeaseFlowTrace:
 			break LOOP
 		}
@@ -256,32 +225,44 @@ LOOP:
 	return
 }
 
-func (ps *ProcessSet) registerCatch(node *schema.CatchEvent, ch chan struct{}) {
-	idPtr, ok := node.Id()
-	if !ok {
+// wakeCatch hands the events of the catch event a message flow points at to the process
+// that contains it. Whether the catch event listens at this moment is for the catch event
+// to say (an event for a catch event that does not listen is dropped, as any other); the
+// set keeps no account of listening catch events of its own, which the throw could overtake.
+func (ps *ProcessSet) wakeCatch(id string) {
+	for _, process := range append(append([]*Process{}, ps.executes...), ps.instantiated...) {
+		element, found := process.element.FindBy(schema.ExactId(id))
+		if !found {
+			continue
+		}
+		var node *schema.CatchEvent
+		switch e := element.(type) {
+		case *schema.IntermediateCatchEvent:
+			node = &e.CatchEvent
+		case *schema.BoundaryEvent:
+			node = &e.CatchEvent
+		default:
+			continue
+		}
+		// counted: the set is not complete while a delivery is under way
+		ps.wg.Add(1)
+		go func(process *Process) {
+			defer ps.wg.Done()
+			for _, eventDefinition := range node.SignalEventDefinitionField {
+				ref, ok := eventDefinition.SignalRef()
+				if ok {
+					process.ConsumeEvent(event.NewSignalEvent(string(*ref)))
+				}
+			}
+			for _, eventDefinition := range node.MessageEventDefinitionField {
+				ref, ok := eventDefinition.MessageRef()
+				if ok {
+					process.ConsumeEvent(event.NewMessageEvent(string(*ref), (*string)(eventDefinition.OperationRefField)))
+				}
+			}
+		}(process)
 		return
 	}
-	ps.cmu.Lock()
-	defer ps.cmu.Unlock()
-	ps.catchCh[*idPtr] = ch
-}
-
-func (ps *ProcessSet) triggerCatch(id string) (func(), bool) {
-	ps.cmu.RLock()
-	defer ps.cmu.RUnlock()
-
-	ch, ok := ps.catchCh[id]
-	if !ok {
-		return nil, false
-	}
-
-	cancel := func() {
-		ps.cmu.Lock()
-		close(ch)
-		delete(ps.catchCh, id)
-		ps.cmu.Unlock()
-	}
-	return cancel, true
 }
 
 func (ps *ProcessSet) resolveWaitingProcessAndEvent(idRef string) (schema.FlowNodeInterface, *schema.Process, bool) {
